@@ -149,7 +149,7 @@ def rule_I(ck, lib, sk, rid):
                              "optional() wraps newline-transparent parser %s and would turn its Incomplete into `absent`" % pid_name(inner), t[3])
                 elif pid[0] != "param" and sk.attr(pid).get("nt") and oc is False:
                     n_prop += 1
-    ck.floor(rid, "optional(..) application sites", n_opt, 14)
+    ck.floor(rid, "optional(..) application sites", n_opt, 8)
     ck.floor(rid, "failing applications of newline-transparent parsers examined", n_prop, 5)
 
 
